@@ -27,7 +27,15 @@ Boundaries == {
   <<" ","1","S">>, <<"1","S"," ">>, <<"1"," ","S">>, <<"+","1","S">>, <<"-","1","S">>, <<"-","0","S">>, <<"1","_","0","S">>
 }
 
-Singles == Strings(MaxLen) \cup Long \cup Boundaries
+\* hour counts around every multiple of the int64 overflow point (2^63 ns = 2562047.788 h): a product that wraps
+\* an even number of times is positive again
+Digs(n) == LET RECURSIVE D(_)
+               D(x) == IF x < 10 THEN <<ToString(x)>> ELSE Append(D(x \div 10), ToString(x % 10))
+           IN D(n)
+HBand(k) == k * 2562047 + (k * 788) \div 1000
+Bands == { Digs(HBand(k) + d) \o <<"H">> : k \in 1..39, d \in {-1, 0, 1, 2, 1000} }
+
+Singles == Strings(MaxLen) \cup Long \cup Boundaries \cup { b \in Bands : Len(b) <= 9 }
 
 \* (c) repeated headers
 Pool == { <<"5","S">>, <<"1","H">>, <<"x">>, <<"-","1","S">>, <<"9","9","9","9","9","9","9","9","H">>, <<"2","m">> }
